@@ -85,11 +85,12 @@ func HC04Responder() {
 				vr.Assert(out[k].n == 1 && out[k].b0 == pay[i] && out[k].ssrc == 0x1111, "retransmission equals the packet as originally sent")
 			}
 		}
-		if requested && !other {
+		inWindow := (base+2)-seq < size // among the most recent `size` numbers up to the highest sent
+		if requested && !other && inWindow {
 			vr.Cover("retransmitted")
 			vr.Assert(cnt == 1, "exactly one retransmission per requested packet")
 		} else {
-			vr.Assert(cnt == 0, "not requested / other SSRC: nothing")
+			vr.Assert(cnt == 0, "not requested / other SSRC / outside the window: nothing")
 		}
 	}
 	for k := 3; k < nout && k < len(out); k++ {
